@@ -133,6 +133,12 @@ def misbehaving(seed, quick):
                 add('wrm-' + what, kind, crc, [dict(when='write', nth=2, what=what)], [O('write', blk=1, n=3)])
             for what in ['status', 'status1']:
                 add('st-' + what, kind, crc, [dict(when='cmd13', nth=1, what=what)], [O('write', blk=1, n=1)])
+            # every rejected-write status: each flag of the second status byte alone and combined, the error flags of
+            # the first (a lone "idle" bit in the first byte is not counted as a failure report)
+            for v in [0x01, 0x02, 0x08, 0x10, 0x20, 0x40, 0x80, 0x81, 0x7E, 0xFF]:
+                add('st2-%02x' % v, kind, crc, [dict(when='cmd13', nth=1, what='status', arg=v)], [O('write', blk=1, n=1)])
+            for v in [0x02, 0x04, 0x05, 0x08, 0x10, 0x20, 0x41, 0x7F]:
+                add('st1-%02x' % v, kind, crc, [dict(when='cmd13', nth=1, what='status1', arg=v)], [O('write', blk=1, n=1)])
             # SPI bus error / dying card at byte k of the target call
             for after in ([0, 3, 7, 20, 300, 520, 530, 540, 1100] if quick else list(range(0, 40)) + list(range(500, 560)) + [1100, 1600]):
                 add('spi%d' % after, kind, crc, [], [O('spierr', after=after), O('write', blk=1, n=2)])
